@@ -36,6 +36,10 @@ class PortValidationError(Exception):
         self._message = message
         self._port = port
 
+    def __reduce__(self) -> Any:
+        # (``args`` holds the formatted text only: copying, pickling and dumping rebuild the error from message and port)
+        return self.__class__, (self._message, self._port)
+
     @property
     def message(self) -> str:
         """
